@@ -71,16 +71,20 @@ Proof. exact macrobody_flag_stops_run. Qed.
 Print Assumptions C16_macrobody_flag_stops_run.
 
 (* the written SURF lines: exactly the representatives (after de-duplication)
-   of the TRIPOLI-4 surfaces (sub-surfaces of collections included) used by the
-   volumes of the cells that survive, each with its descriptor *)
+   of the TRIPOLI-4 surfaces (sub-surfaces of collections included, in the
+   cell's equation or in a UNION volume) used by the volumes of the cells that
+   survive, each with its descriptor - plus what a cell deleted after
+   de-duplication leaves behind: remove_unused_volumes makes one pass, so the
+   FICTIVE arguments of its UNION volumes stay in the file *)
 Theorem C16_written_surfaces_exact :
   forall (dedup : bool) (t : table) (cells : list cell) (surfs : list (N * N)) (k d : N),
   geometry dedup t cells = Ok surfs ->
   (In (k, d) surfs <->
    dict_get k (number_items t) = Some d /\
-   exists c k0, In c cells /\ survives dedup (number_items t) (matching_of t) c /\
-                uses (matching_of t) c k0 /\
-                repr_of dedup (number_items t) k0 = Some k).
+   exists c, In c cells /\
+     ((survives dedup (number_items t) (matching_of t) c /\
+       exists k0, uses (matching_of t) c k0 /\ repr_of dedup (number_items t) k0 = Some k) \/
+      leaves dedup (number_items t) (matching_of t) c k)).
 Proof. exact written_surfaces_exact. Qed.
 Print Assumptions C16_written_surfaces_exact.
 
@@ -369,7 +373,7 @@ Proof.
   split; [reflexivity|].
   split; [|vm_compute; reflexivity].
   exists (1%N, [[(-1)%Z; 3%Z; (-9)%Z]]). split; [left; reflexivity|]. split.
-  - eexists. vm_compute. reflexivity.
+  - eexists. eexists. vm_compute. reflexivity.
   - exists [(-1)%Z; 3%Z; (-9)%Z], 3%Z. split; [left; reflexivity|].
     split; [right; left; reflexivity|]. split; [discriminate|reflexivity].
 Qed.
@@ -393,7 +397,7 @@ Proof.
   split; [do 4 right; left; reflexivity|].
   split; [reflexivity|]. split; [reflexivity|].
   exists (1%N, [[(-6)%Z; 7%Z; (-8)%Z]]). split; [left; reflexivity|]. split.
-  - eexists. vm_compute. reflexivity.
+  - eexists. eexists. vm_compute. reflexivity.
   - exists [(-6)%Z; 7%Z; (-8)%Z], 7%Z. split; [left; reflexivity|].
     split; [right; left; reflexivity|]. split; [discriminate|reflexivity].
 Qed.
@@ -466,7 +470,7 @@ Proof.
   split; [vm_compute; reflexivity|].
   split; [right; left; reflexivity|]. split; [reflexivity|]. split; [reflexivity|].
   exists (1%N, [[(-7)%Z; 3%Z; (-9)%Z]]). split; [left; reflexivity|]. split.
-  - eexists. vm_compute. reflexivity.
+  - eexists. eexists. vm_compute. reflexivity.
   - exists [(-7)%Z; 3%Z; (-9)%Z], (-7)%Z. split; [left; reflexivity|].
     split; [left; reflexivity|]. split; [discriminate|reflexivity].
 Qed.
@@ -596,4 +600,30 @@ Proof.
   - intros k d H. repeat (destruct H as [H|H]; [inversion H; lia|]). destruct H.
   - intros k e H Hf. repeat (destruct H as [H|H]; [inversion H; subst; cbn; auto 10|]).
     destruct H.
+Qed.
+
+(* positive literal of a collection (a UNION volume): *7 KZ 0 1 1, cells
+   "-1 7" and "-1 8 7" with 8 a duplicate of 1.  With de-duplication the second
+   cell dies (1 on both sides), its UNION volume goes, the FICTIVE volume of the
+   cone's plane (id 10) stays behind; the first cell keeps the cone: one entry,
+   on 7.  Without de-duplication both cells live *)
+Example C16_example_union :
+  let cards := [mkS "1" 1 5 [] []; mkS "8" 1 5 [] []; mkS "*7" 1 14 [8%N] [true; false]] in
+  let cells := [(1%N, [[(-1)%Z; 7%Z]]); (2%N, [[(-1)%Z; 8%Z; 7%Z]])] in
+  exists t,
+    parse_cards cards [] = Ok t /\
+    run (mkCfg false false) cards cells = Ok ([(1, 5); (7, 14); (9, 8)]%N, [(Reflection, 7%N)]) /\
+    run (mkCfg true false) cards cells =
+      Ok ([(1, 5); (7, 14); (8, 5); (9, 8)]%N, [(Reflection, 7%N)]) /\
+    survives true (number_items t) (matching_of t) (1%N, [[(-1)%Z; 7%Z]]) /\
+    leaves true (number_items t) (matching_of t) (2%N, [[(-1)%Z; 8%Z; 7%Z]]) 9 /\
+    ~ survives true (number_items t) (matching_of t) (2%N, [[(-1)%Z; 8%Z; 7%Z]]).
+Proof.
+  cbv zeta. eexists.
+  split; [vm_compute; reflexivity|].
+  split; [vm_compute; reflexivity|].
+  split; [vm_compute; reflexivity|].
+  split; [eexists; eexists; vm_compute; reflexivity|].
+  split; [eexists; eexists; split; [vm_compute; reflexivity|left; reflexivity]|].
+  intros [ids [left H]]. vm_compute in H. discriminate.
 Qed.
